@@ -121,7 +121,7 @@ impl Part for Shortcuts {
     }
     fn cases(&self, tier: Tier) -> usize {
         match tier {
-            Tier::Quick => 24_000,
+            Tier::Quick => 72_000,
             Tier::Thorough => 1_200_000,
         }
     }
